@@ -7,6 +7,8 @@
 #include "STPSolver.h"
 #include "Converter.h"
 
+#include <common/ApiException.h>
+
 namespace opensmt {
 
 static SolverDescr descr_stp_solver("STP Solver", "Solver for Simple Temporal Problem (Difference Logic)");
@@ -22,9 +24,13 @@ template<class T>
 typename STPSolver<T>::ParsedPTRef STPSolver<T>::parseRef(PTRef ref) const {
     // inequalities are in the form (c <= (x + (-1 * y)))
     // due to how LALogic creates terms, we won't ever encounter <, >, or >= inequalities
-    assert(logic.isLeq(ref));
+    // Anything else is not a difference constraint: it is refused, never read as if it were one
+    auto refuse = [&]() -> ParsedPTRef {
+        throw ApiException("Not a difference constraint: " + logic.pp(ref));
+    };
+    if (not logic.isLeq(ref)) { return refuse(); }
     Pterm &leq = logic.getPterm(ref);
-    assert(logic.isNumConst(leq[0]));
+    if (not logic.isNumConst(leq[0])) { return refuse(); }
     auto c = -logic.getNumConst(leq[0]);  // -'c': since we want the form (y <= x + c), the constant is negated
     PTRef rhs = leq[1];  // 'x + (-1 * y)'
 
@@ -36,20 +42,22 @@ typename STPSolver<T>::ParsedPTRef STPSolver<T>::parseRef(PTRef ref) const {
         Pterm &rhsPt = logic.getPterm(rhs);
         PTRef mul{};  // (-1 * y) term
         if (logic.isPlus(rhs)) {  // usual DL inequality with two variables
+            if (rhsPt.size() != 2) { return refuse(); }
             uint8_t ix = logic.isNumVar(rhsPt[0]) ? 0 : 1;
             uint8_t iy = 1 - ix;
             x = rhsPt[ix];
             mul = rhsPt[iy];
+            if (not logic.isNumVar(x)) { return refuse(); }
         } else { // RHS contains just a negative variable
             x = PTRef_Undef;
             mul = rhs;
         }
 
-        assert(logic.isTimes(mul));
+        if (not logic.isTimes(mul)) { return refuse(); }
         Pterm &mulPt = logic.getPterm(mul);
-        assert(logic.isNumConst(mulPt[0]) && logic.getNumConst(mulPt[0]) == -1);
+        if (mulPt.size() != 2 or not logic.isNumConst(mulPt[0]) or logic.getNumConst(mulPt[0]) != -1) { return refuse(); }
         y = mulPt[1];
-        assert(logic.isNumVar(y));
+        if (not logic.isNumVar(y)) { return refuse(); }
     }
     return ParsedPTRef{x, y, Converter<T>::getValue(c)};
 }
@@ -62,9 +70,9 @@ void STPSolver<T>::declareAtom(PTRef tr) {
     // to some constant
 
     if (isInformed(tr)) { return; }
-    setInformed(tr);
 
-    auto parsed = parseRef(tr);
+    auto parsed = parseRef(tr); // throws if tr is not a difference constraint
+    setInformed(tr);
 
     // find out if edge already exists (created as part of a negation)
     VertexRef x = mapper.getVertRef(parsed.x);
